@@ -179,17 +179,17 @@ func genArchive(g *Gen, maxBlocks int) (roots string, bs []Blk, ver int, dp uint
 // bigSectionCases: archives with a section past the sizes where readers may switch strategy
 // (64 KiB, 256 KiB chunks, 1 MiB), cut at sampled offsets inside and around the big section.
 func bigSectionCases(g *Gen, o *Out, thorough bool) {
-	sizes := []int{65500 + g.pick(80), 70000 + g.pick(30000)}
+	sizes := []int{65500 + g.pick(80), 70000 + g.pick(30000), 1<<20 + 3000 + g.pick(1000)}
 	if thorough {
-		sizes = append(sizes, 65536, 262144+g.pick(100), 1<<20+g.pick(1000))
+		sizes = append(sizes, 65536, 262144+g.pick(100), 1<<20+g.pick(1000), 2<<20+g.pick(1000), 4<<20+g.pick(1000))
 	}
-	for _, sz := range sizes {
+	for si, sz := range sizes {
 		small := g.Block()
 		big := g.BlockWith(g.bytes(sz))
 		bs := []Blk{small, big, g.Block()}
 		o.HashBlocks(bs)
 		r := []cid.Cid{small.C}
-		v1 := g.pick(2) == 0
+		v1 := g.pick(2) == 0 || si == 2 // the section past 1 MiB goes through every reader kind, the root module's included
 		var arch []byte
 		ver, pend := 1, 0
 		if v1 {
@@ -209,12 +209,18 @@ func bigSectionCases(g *Gen, o *Out, thorough bool) {
 			if k < 0 || k >= pend {
 				continue
 			}
-			rd := scanReaders[g.pick(2)]
+			rds := []string{scanReaders[g.pick(2)]}
 			if v1 {
-				rd = scanReaders[g.pick(len(scanReaders))]
+				all := append(append(append([]string{}, scanReaders...), skipReaders...), rootReaders...)
+				rds = []string{all[g.pick(len(all))]}
+				if si == 2 && (k == start+200+sz/2 || k == pend-len(bs[2].D)-70) {
+					rds = all // a cut in the middle of the big section and one just before its end: every reader
+				}
 			}
-			o.Line(fmt.Sprintf("mut rd=%s %s %s trunc=%d", rd, ro, desc, k), runReader(rd, ro, arch[:k])+" archok=1")
-			o.Count("trunc-big/" + rd)
+			for _, rd := range rds {
+				o.Line(fmt.Sprintf("mut rd=%s %s %s trunc=%d", rd, ro, desc, k), runReader(rd, ro, arch[:k])+" archok=1")
+				o.Count("trunc-big/" + rd)
+			}
 		}
 	}
 }
